@@ -13,12 +13,14 @@ META = {
             "self-referential generics, deep nesting, mutated std files) across language levels and strictness settings, running "
             "update + diagnose_file + semantic info / infer on every token and expression in child processes on 2 MiB stacks under a "
             "wall-clock budget; a panic, an abort (stack overflow) or a timeout is the replay.",
-    "note": "Recursion guards proved; totality explored, not proved. The search DOES find crashes on the current tree: unguarded recursions "
-            "over self-referential generics / aliases / class graphs overflow the stack (process abort), one parser-node unwrap panics, some "
-            "inputs hang; they are recorded as open findings (findings/C12.json) by the function where the stack overflows / the panic "
-            "location, and the check fails on any crash with a new signature. Trusted: Coq kernel; the hand models (the type-check / "
-            "sub-type model is validated by correspondence, the InferGuard and humanizer skeletons only by reading + constants/anchors "
-            "regenerated from source); the search is sampling. Axioms: none.",
+    "note": "Recursion guards proved; totality explored, not proved. The search DOES find crashes: unguarded recursions over "
+            "self-referential generics / aliases / class graphs overflow the stack (process abort), exponential type checks hang. Five "
+            "classes were repaired in /repo (comment inside index brackets e195d3f, remove_type a1a93c9, narrow_down_type c0eea94, "
+            "call-non-callable a0598d6, integer constant folding overflow); eleven remain open findings (findings/C12.json), identified "
+            "by the function in which the stack overflows / the time is spent, and the check fails on any crash with a new signature. "
+            "Trusted: Coq kernel; the hand models (the type-check / sub-type model is validated by correspondence, the InferGuard and "
+            "humanizer skeletons only by reading + constants/anchors regenerated from source); gdb for crash signatures; the search is "
+            "sampling. Axioms: none.",
     "technique": "Coq proof of termination / depth bounds (fuel-indexed models, invariants over visited sets) about hand-written Gallina "
                  "transcriptions + constants regenerated from source + correspondence on cyclic graphs + crash search in sandboxed child processes",
 }
@@ -64,10 +66,14 @@ def search(ck, binpath, n, budget_ms):
     if rc != 0:
         ck.tie_broken("harness c12 search failed", (err or out)[-2000:])
         return
-    for l in out.splitlines():
+    for l in out.split("\n"):
         if not l.strip().startswith("{"):
             continue
-        v = json.loads(l)
+        try:
+            v = json.loads(l)
+        except ValueError as ex:
+            ck.tie_broken("harness c12 search printed an unparsable line", "%s: %s" % (ex, l[:300]))
+            continue
         if "summary" in v:
             s = v["summary"]
             ck.cov["distribution"]["search"] = {k: s.get(k) for k in ("cases", "planned", "distinct_nontrivial", "top_families", "families", "levels", "panics",
@@ -91,7 +97,7 @@ def replay(ck, binpath, path):
         rc, out, err = ck.run_bin(binpath, ["one", "--case-file", fn], timeout=120)
         if rc != 0:
             what = "exit %s" % rc
-            for l in out.splitlines():
+            for l in out.split("\n"):
                 if l.strip().startswith("{"):
                     what = l.strip()[:300]
             ck.violation(v["signature"], "replayed: %s" % what, c)
